@@ -133,8 +133,12 @@ class BaseRollPass(DiskElementUnit, DeformationUnit, ABC):
         self.out_profile.cross_section = self.usable_cross_section
 
     def reevaluate_cache(self):
-        super().reevaluate_cache()
+        # the memoised geometry belongs to the values of the previous evaluation: drop it before the remembered hook
+        # values are recomputed (they read the contour lines) and again afterwards (it was rebuilt meanwhile from values
+        # that were only partly recomputed)
+        self._contour_lines = None
         self.roll.reevaluate_cache()
+        super().reevaluate_cache()
         self._contour_lines = None
 
     class Profile(DiskElementUnit.Profile, DeformationUnit.Profile):
